@@ -11,7 +11,7 @@ git -C /repo worktree add -q --detach $wt HEAD || exit 2
 git -C $wt apply /verif/seeded/$seed/patch.diff || { echo "$seed: patch does not apply"; git -C /repo worktree remove --force $wt; exit 2; }
 mkdir -p $out
 for p in $props; do
-  r=$(cd /verif && VERIF_REPO=$wt VERIF_OUT=$out VERIF_SEED=${VERIF_SEED:-1} ./check $p ${VERIF_TIER:+--tier $VERIF_TIER} 2>&1 | grep -E "^(OK|VIOLATION|NOTE|BROKEN|  signature)" | head -3 | cut -c1-160 | tr '\n' ' ')
+  r=$(cd ${VERIF_DEV:-/verif} && VERIF_REPO=$wt VERIF_OUT=$out VERIF_SEED=${VERIF_SEED:-1} ./check $p ${VERIF_TIER:+--tier $VERIF_TIER} 2>&1 | grep -E "^(OK|VIOLATION|NOTE|BROKEN|  signature)" | head -3 | cut -c1-160 | tr '\n' ' ')
   echo "$seed $p: $r"
   if [ -n "$KEEP_REPLAY" ]; then
     f=$(echo "$r" | sed -n 's/.*replay=\([^ ]*\).*/\1/p')
